@@ -597,6 +597,20 @@ func (c *Client) monitor(ctx context.Context) {
 				<-c.sechanErr
 			}
 
+			// the new secure channel may have lost its connection already
+			// and its error may have been among the ones just cleared:
+			// make sure the loss is not forgotten
+			if sc := c.SecureChannel(); sc != nil {
+				select {
+				case <-sc.Disconnected():
+					select {
+					case c.sechanErr <- io.EOF:
+					default:
+					}
+				default:
+				}
+			}
+
 			switch {
 			case activeSubs > 0:
 				dlog.Printf("resuming %d subscriptions", activeSubs)
